@@ -42,7 +42,7 @@ def variants_for(pid):
 def _copy_tree(dst):
     # only what the analysis reads: the package sources (py / pyx / pxd)
     def ign(d, names):
-        return [n for n in names if n == '__pycache__' or n.endswith(('.so', '.c', '.pyc', '.o'))]
+        return [n for n in names if n == '__pycache__' or n.endswith(('.so', '.pyc', '.o'))]
     shutil.copytree(os.path.join(REPO, 'cassandra'), os.path.join(dst, 'cassandra'), ignore=ign)
 
 
